@@ -338,7 +338,7 @@ class Interp:
                 names = [norm(x) for x in t.elts] if isinstance(t, ast.Tuple) else [norm(t)]
                 if isinstance(v, Obj):
                     return v.cls in names
-                pym = {"int": int, "str": str, "bool": bool, "list": list, "tuple": tuple, "dict": dict, "bytes": bytes}
+                pym = {"int": int, "str": str, "bool": bool, "list": list, "tuple": tuple, "dict": dict, "bytes": bytes, "float": float, "bytearray": bytearray, "Sequence": (list, tuple), "BaseTag": int, "MutableSequence": list}
                 return any(isinstance(v, pym[x]) for x in names if x in pym)
             if n in self.globals and callable(self.globals[n]):
                 return self.globals[n](*args, **kw)
